@@ -257,6 +257,54 @@ def _roundtrip(args):
     return dict(violations=_dedup(out), counts=counts)
 
 
+def _roundtrip_default(args):
+    """strategies that rely on the DEFAULT name (no name / empty name: the class name is used): two different
+    subclasses are two strategies, and their references come back to the right one in a second instance."""
+    (blank, first) = args
+    from flumine import BaseStrategy
+
+    out = []
+    counts = {"clause:C19.b": 0, "default_name_refs": 0}
+    cls_names = ["TrendFollower", "MeanReverter", "Scalper"]
+    if first:
+        cls_names = cls_names[first:] + cls_names[:first]
+    producers = []
+    for cn in cls_names:
+        st = type(cn, (BaseStrategy,), {})(market_filter={"markets": []}, name=blank)
+        producers.append((cn, st))
+    named = BaseStrategy(market_filter={"markets": []}, name="alpha")
+    made = [(cn, _mk(st, "-")) for cn, st in producers for k in range(3)] + [("alpha", _mk(named, "-")) for k in range(2)]
+    w = livex.LiveWorld([], strategies=("alpha",))
+    w.start()
+    try:
+        ex = w.exchange
+        fw = w.framework
+        _, LiveScripted = livex.live_classes()
+        mine = {"alpha": [s_ for s_ in fw.strategies if s_.name == "alpha"][0]}
+        for cn in cls_names:
+            st2 = type(cn, (LiveScripted,), {})(w, market_filter={"marketIds": w.markets}, name=blank, max_order_exposure=None, max_selection_exposure=None)
+            fw.add_strategy(st2)
+            mine[cn] = st2
+        bets = [ex.new_bet("1.100000001", o.create_place_instruction(), "verif") for cn, o in made]
+        ex.publish("1.100000001", bets)
+        while ex.snap_queue:
+            w.do(("D",))
+        case = dict(default_names=True, blank=blank, first=first)
+        for (cn, o), b in zip(made, bets):
+            counts["clause:C19.b"] += 1
+            counts["default_name_refs"] += 1
+            got = fw.markets.get_order("1.100000001", o.id)
+            if got is None:
+                out.append(core.v("C19.b", ("roundtrip missing", "default-name"), "reference %r of the unnamed strategy of class %s was not resolved by the second instance" % (o.customer_order_ref, cn), case))
+            elif got.trade.strategy is not mine[cn]:
+                out.append(core.v("C19.b", ("roundtrip wrong strategy", "default-name"), "reference %r of the unnamed strategy of class %s resolved to the strategy of class %s" % (o.customer_order_ref, cn, type(got.trade.strategy).__name__), case))
+        if w.handler_exceptions:
+            out.append(core.v("C19.b", ("roundtrip exception", "default-name"), w.handler_exceptions[0][-300:], case))
+    finally:
+        w.stop()
+    return dict(violations=_dedup(out), counts=counts)
+
+
 def _attr_replacement(args):
     """Betfair: the exchange reports a bet that carries a known order's reference under a bet id no local order
     has (the replacement bet seen before the replace reply, or by an instance that only knows the original bet):
@@ -501,6 +549,9 @@ def run(tier):
     for r in core.pmap(_roundtrip, rj, chunk=1):
         rep.add_violations(r["violations"])
         rep.merge_counts(r["counts"])
+    for r in core.pmap(_roundtrip_default, [(b, f) for b in (None, "") for f in (0, 1)], chunk=1):
+        rep.add_violations(r["violations"])
+        rep.merge_counts(r["counts"])
     aj = [(fn, fo, cn) for fn in (0, 1) for fo in (0.0, 1.0) for cn in (False, True) if fn or not cn]
     for r in core.pmap(_attr_replacement, aj, chunk=1):
         rep.add_violations(r["violations"])
@@ -533,7 +584,7 @@ def run(tier):
             break
         by_hash[hh] = name
     rep.need("replacement_bet_reports", "betdaq_batches", "betdaq_place_arrangements", "cleared_reports")
-    rep.need("valid_seps_accepted", "invalid_seps_rejected", "orders_created", "roundtrip_refs", "unknown_strategy_refs")
+    rep.need("default_name_refs", "valid_seps_accepted", "invalid_seps_rejected", "orders_created", "roundtrip_refs", "unknown_strategy_refs")
     rep.states = len(nm) * (len(seps()) - 1) * 2 + len(rj)
     rep.transitions = sum(rep.clauses.values())
     rep.traces = rep.transitions
@@ -569,6 +620,8 @@ def replay(rep):
         r = _attr_replacement(tuple(c["attr_replacement"]))
     elif "betdaq_batch" in c:
         r = _attr_betdaq([tuple(c["betdaq_batch"])])
+    elif "default_names" in c:
+        r = _roundtrip_default((c["blank"], c["first"]))
     elif "own" in c:
         r = _roundtrip((tuple(c["own"]), c["sep"], tuple(c.get("late") or ())))
     elif "mode" in c:
